@@ -113,15 +113,21 @@ def index_program(prog):
 
 
 def relation(chain, unbinder, use):
-    """where the use lies relative to the innermost try statement whose BODY contains the unbinding statement"""
-    tries = [a for a in chain.get(unbinder, []) if a[1] == "try" and a[2] == "a"]
-    if not tries:
-        return "no_try_body"
-    tid = tries[-1][0]
-    for a in chain.get(use, []):
-        if a[0] == tid:
-            return {"a": "same_body", "b": "else", "f": "finally"}.get(a[2], "handler")
-    return "after"
+    """where the use lies relative to the try statements that enclose the unbinding statement: in the handler of a try
+    whose BODY contains the unbinder, or in the finally block of a try that contains it (body, handler or else)"""
+    for tid, kind, sel in reversed(chain.get(unbinder, [])):
+        if kind != "try" or sel == "f":
+            continue
+        for a in chain.get(use, []):
+            if a[0] == tid:
+                if a[2] == "f":
+                    return "finally"
+                if a[2].startswith("h") and sel == "a":
+                    return "handler"
+                if a[2] == sel:
+                    return "same_block"
+                return "else" if a[2] == "b" else "other_clause"
+    return "after" if any(k == "try" for _, k, _ in chain.get(unbinder, [])) else "no_try"
 
 
 # --------------------------------------------------------------------------- comparison
@@ -159,7 +165,10 @@ def classify(rec, cobs, info, cfg):
         resp = fails[0] if fails else nxt
         # the compiler's "cannot be unbound here" claims that the spec refutes on this path, in the gap where the child died
         bad = [v for v in rec["fv"] if v[1] == "mn" and v[3] == k]
-        if bad and not (fails and bad[0][0] == fails[0][0]):
+        hit = [e for e in fails if bad and e[0] == bad[0][0]]
+        if hit:
+            resp = hit[0]            # a use: described below like every failed use
+        elif bad:
             sid = bad[0][0]
             st = info["stmts"].get(sid) or info["stmts"][sid // 100]
             var = st["v"] if sid in info["stmts"] else st["hs"][sid % 100 - 1]["v"]
